@@ -30,6 +30,51 @@ def dt_class(dt):
     return ">1"
 
 
+def build_aligned(P, origin, chars, seed, shift=0):
+    """Samples whose '%.6f' lines (9 or 10 characters with the line end) put a line end on every multiple of P, positions
+    being counted from `origin` characters before the first value line.  Deterministic in its arguments."""
+    import random
+    r = random.Random(seed)
+    vals = []
+    pos = origin
+    target = (pos // P + 1) * P + shift
+    while pos - origin < chars:
+        gap = target - pos
+        b = 0
+        while gap - 10 * b >= 0 and (gap - 10 * b) % 9:
+            b += 1
+        if gap - 10 * b < 0:          # no combination of 9s and 10s: aim for the next multiple instead
+            target += P
+            continue
+        a = (gap - 10 * b) // 9
+        lines = [9] * a + [10] * b
+        r.shuffle(lines)
+        for w in lines:
+            x = float("%.6f" % (r.random() * 9.9))
+            vals.append(x if w == 9 else -x if r.random() < 0.7 else 10.0 + x)
+        pos = target
+        target += P
+    return vals
+
+
+_ALIGNED_MEMO = {}
+
+
+def dec_values(v):
+    if "aligned" in v:
+        a = v["aligned"]
+        key = (a["P"], a["origin"], a["chars"], a["seed"])
+        if key not in _ALIGNED_MEMO:
+            _ALIGNED_MEMO.clear()         # (one long record at a time)
+            _ALIGNED_MEMO[key] = np.array(build_aligned(*key), dtype=float)
+        return _ALIGNED_MEMO[key].copy()
+    return codec.dec(v)
+
+
+def lit_values(v):
+    return {"nd": "f8", "v": dec_values(v).tolist()} if "aligned" in v else v
+
+
 def n_class(n):
     return "1" if n == 1 else "2" if n == 2 else "small" if n <= 16 else "large"
 
@@ -39,7 +84,16 @@ DT_CLASSES = ["<1 exact-4dp", "<1 rounding", "=1", ">1"]
 N_CLASSES = ["1", "2", "small", "large"]
 SWEEP = [(sv, lf, dc, nc, br) for sv in SAVE_VIA for lf in LOAD_FORMS for dc in DT_CLASSES for nc in N_CLASSES
          for br in ("primary", "fallback")]
-N_SWEEP = len(SWEEP)
+N_CELL_SWEEP = len(SWEEP)
+# Long block-aligned records (seeded change c16n-3): a value column of more than 4 MiB (one of more than 8 MiB) in which
+# EVERY multiple of P characters -- counted from the start of the file, or from the first value line -- is a line end,
+# so that a block-wise reader with any block size that is a multiple of P meets a block that ends exactly after a
+# newline.  P = 512 covers every power-of-two block from 512 B to 8 MiB, P = 1000 the round decimal ones.  One run per
+# 32-index chunk, so that they execute in parallel.
+BIG = [(512, "file", 4400000), (512, "values", 4400000), (1000, "file", 4300000), (1000, "values", 4300000),
+       (512, "values", 8500000)]
+BIG_POS = {31 + 32 * k: k for k in range(len(BIG))}
+N_SWEEP = N_CELL_SWEEP + len(BIG)
 ALL_CELLS = len(SWEEP) * 5   # x preceding event {none, overwrite-shorter, overwrite-longer, failed-save, failed-load}
 
 
@@ -92,8 +146,12 @@ class C16(Profile):
 
     def make_config(self, rng, tier, index):
         thorough = tier == "thorough"
+        if index in BIG_POS:
+            P, org, chars = BIG[BIG_POS[index]]
+            return {"run_class": "sweep", "faults_on": True, "fault_rate": 0.0, "fallback_bias": 0.0, "length": 0, "n_max": 256,
+                    "n_files": 1, "max_steps": 12, "big": {"P": P, "origin": org, "chars": chars}}
         if index < N_SWEEP:
-            sv, lf, dc, nc, br = SWEEP[index]
+            sv, lf, dc, nc, br = SWEEP[index - sum(1 for q in BIG_POS if q < index)]
             return {"run_class": "sweep", "faults_on": True, "fault_rate": 0.0, "fallback_bias": 0.0, "length": 0, "n_max": 256,
                     "n_files": 1, "max_steps": 24,
                     "sweep": {"save": sv, "load": lf[0], "m": lf[1], "dt_class": dc, "n_class": nc, "branch": br}}
@@ -186,12 +244,12 @@ class C16(Profile):
             sig = world.sigs.get(op["obj"])
             if sig is None:
                 cls = getattr(eqsig, op["via"].split(":")[1])
-                sig = cls(codec.dec(op["values"]), op["dt"], label=op["label"])
+                sig = cls(dec_values(op["values"]), op["dt"], label=op["label"])
                 world.sigs[op["obj"]] = sig
             return eqsig.save_signal(path, sig)
         if op["op"] == "save" and "bad_sample" in op:
             # K1: one sample cannot be written; the caller keeps the exception (and with it the frames it refers to)
-            vals = codec.dec(op["values"]).tolist()
+            vals = dec_values(op["values"]).tolist()
             vals[op["bad_sample"] % len(vals)] = None
             try:
                 return eqsig.save_values_and_dt(path, vals, op["dt"], op["label"])
@@ -199,7 +257,7 @@ class C16(Profile):
                 world.kept.append(e)
                 raise
         if op["op"] == "save":
-            vals = codec.dec(op["values"])
+            vals = dec_values(op["values"])
             form = op.get("as")
             if form == "list":
                 vals = vals.tolist()
@@ -303,7 +361,7 @@ class C16(Profile):
         f = op["f"]
         real_fault = [k for k in fired_kinds if k != "K11"]
         if op["op"] == "save":
-            rec = {"values": np.asarray(codec.dec(op["values"]), dtype=float), "dt": float(self._typed_dt(op)), "label": op["label"],
+            rec = {"values": np.asarray(dec_values(op["values"]), dtype=float), "dt": float(self._typed_dt(op)), "label": op["label"],
                    "via": op["via"]}
             if "obj" in op and op["obj"] in world.sigs:
                 o = world.sigs[op["obj"]]
@@ -452,7 +510,7 @@ class C16(Profile):
                 o2["fault"] = {k: v for k, v in o["fault"].items() if k != "then"}
                 yield ops[:i] + [o2] + ops[i + 1:], config
             if o["op"] == "save":
-                data = o["values"]["v"]
+                data = lit_values(o["values"])["v"]
                 for n in (32, 16, 8, 4, 2, 1):
                     if len(data) > n:
                         o2 = dict(o)
@@ -564,8 +622,44 @@ class Gen(object):
                 load()]                                              # after a failed load
         self.queue = plan
 
+    def _plan_big(self):
+        rng = self.rng
+        big = self.cfg["big"]
+        label = rng.choice(["m1", "record one", "x"])
+        dt = rng.choice([0.005, 0.01, 0.02])
+        via = rng.choice(SAVE_VIA)
+        origin = 0
+        if big["origin"] == "file":
+            # the header is 'label\n<npts> <dt %.4f>\n'; npts has six digits for 4 MiB and seven from 1e6 samples on
+            digits = 6
+            while True:
+                origin = len(label) + 1 + digits + 1 + 6 + 1
+                n = len(build_aligned(big["P"], origin, big["chars"], 1))
+                if len(str(n)) == digits:
+                    break
+                digits = len(str(n))
+        vals = {"nd": "f8", "aligned": {"P": big["P"], "origin": origin, "chars": big["chars"], "seed": 1}}
+        small = self._values()
+        small["v"] = (small["v"] + [0.25, -0.5, 1.0])[:rng.randint(3, 40)]
+
+        def load(via, fault=None):
+            op = {"op": "load", "f": "f0", "via": via}
+            if fault:
+                op["fault"] = fault
+            return op
+        self.queue = [
+            {"op": "save", "f": "f0", "via": via, "values": vals, "dt": dt, "label": label},
+            load("load_values_and_dt"),
+            load(rng.choice(["load_asig:label", "load_sig"]), {"kind": "K11", "when": rng.choice(["before", "after"])}),
+            {"op": "save", "f": "f0", "via": rng.choice(SAVE_VIA), "values": small, "dt": dt, "label": label},
+            load(rng.choice(LOAD_VIA))]
+
     def __call__(self, world, step):
         rng = self.rng
+        if self.cfg.get("big"):
+            if step == 0:
+                self._plan_big()
+            return self.queue.pop(0) if self.queue else None
         if not self.cfg.get("sweep") and world.kept and rng.random() < 0.3:
             return {"op": "release"}
         if not self.cfg.get("sweep") and self.emitted >= self.cfg["length"] and world.kept:
